@@ -163,6 +163,7 @@ def space(tier):
     parts = [Tagged("body", Product(range(len(bodies(tier))), [tier]))]
     parts.append(Tagged("dispatch", Product(range(len(dispatch_cases())))))
     parts.append(Tagged("rescale", Product(range(len(rescale_cases(tier))), [tier])))
+    parts.append(Tagged("kmix", Product(range(len(kmix_cases())))))
     return Concat(*parts)
 
 
@@ -436,11 +437,118 @@ def eval_rescale(r: CaseResult, idx, tier):
             break
 
 
+# ------------------------------------------------------------------------------------------------ hand-given kernel bodies (expansion only)
+
+_KMIX = []
+
+
+def kmix_cases():
+    """linalg bodies that already contain ONE named kernel op, with every operand wiring, optionally preceded / followed by plain arithmetic:
+    (kernel, wiring of (lhs, rhs) over the two inputs, leading op?, trailing op)"""
+    if not _KMIX:
+        for kern in ("add", "mul", "mac", "qmac"):
+            for wiring in ((0, 1), (1, 0), (0, 0), (1, 1)):
+                for lead in (0, 1):
+                    for trail in ("none", "muli_out", "addi_a0", "subi_rev"):
+                        _KMIX.append((kern, wiring, lead, trail))
+    return _KMIX
+
+
+def kmix_text(kern, wiring, lead, trail):
+    q = kern == "qmac"
+    tin = "i8" if q else "i32"
+    atys = [tin, tin] + (["i32", "i32"] if q else []) + ["i32"]
+    nin = len(atys) - 1
+    lines = []
+    if lead:
+        lines.append(f"    %p = arith.addi %a{nin}, %a{nin} : i32")
+    l, r_ = f"%a{wiring[0]}", f"%a{wiring[1]}"
+    if q:
+        lines.append(f"    %k = kernel.qmac {l}, {r_} zp_lhs : %a2 zp_rhs : %a3 : i8, i8, i32, i32 -> i32")
+    else:
+        lines.append(f"    %k = kernel.{kern} {l}, {r_} : i32, i32 -> i32")
+    res = "%k"
+    if trail == "muli_out":
+        lines.append(f"    %t = arith.muli %k, %a{nin} : i32")
+        res = "%t"
+    elif trail == "addi_a0":
+        lines.append(f"    %t = arith.addi %k, %a{nin} : i32\n    %t2 = arith.addi %t, %t : i32")
+        res = "%t2"
+    elif trail == "subi_rev":
+        lines.append(f"    %t = arith.subi %a{nin}, %k : i32")
+        res = "%t"
+    lines.append(f"    linalg.yield {res} : i32")
+    maps = ", ".join(["affine_map<(d0) -> (d0)>"] * (nin + 1))
+    ins = ", ".join(f"%m{i}" for i in range(nin))
+    ins_t = ", ".join(f"memref<8x{t}>" for t in atys[:nin])
+    fargs = ", ".join(f"%m{i} : memref<8x{t}>" for i, t in enumerate(atys))
+    bargs = ", ".join(f"%a{i} : {t}" for i, t in enumerate(atys))
+    return (
+        "builtin.module {\nfunc.func @f(" + fargs + ") {\n"
+        f'  linalg.generic {{indexing_maps = [{maps}], iterator_types = ["parallel"]}} ins({ins} : {ins_t}) outs(%m{nin} : memref<8xi32>) {{\n'
+        f"  ^bb0({bargs}):\n" + "\n".join(lines) + "\n  }\n  func.return\n}\n}\n"
+    ), atys
+
+
+def run_mixed(block, args):
+    """IR machine with the documented meaning of the named kernel ops (kernel.py docstrings): the accumulator of mac / qmac is the output block argument"""
+
+    def vals(it, op):
+        return [it.get(o) for o in op.operands]
+
+    def acc(it, op):
+        return it.get(op.parent_block().args[-1])
+
+    h = {
+        "kernel.add": lambda it, op: [wrap(sum(vals(it, op)), 32)],
+        "kernel.mul": lambda it, op: [wrap(vals(it, op)[0] * vals(it, op)[1], 32)],
+        "kernel.mac": lambda it, op: [wrap(acc(it, op) + vals(it, op)[0] * vals(it, op)[1], 32)],
+        "kernel.qmac": lambda it, op: [wrap(acc(it, op) + (vals(it, op)[0] - vals(it, op)[2]) * (vals(it, op)[1] - vals(it, op)[3]), 32)],
+    }
+    it = Interp(handlers=h, budget=1000)
+    return it.run_block(block, list(args))[2][0]
+
+
+def eval_kmix(r: CaseResult, idx):
+    kern, wiring, lead, trail = kmix_cases()[idx]
+    text, atys = kmix_text(kern, wiring, lead, trail)
+    key = f"kmix|{kern}|{wiring}|{lead}|{trail}"
+    case = dict(kind="kmix", idx=idx, body=text)
+    base = common.parse(text)
+    base.verify()
+    try:
+        mod = common.compile_text(text, "convert-kernel-to-linalg")
+    except common.Rejected as e:
+        r.rejected = e.kind
+        return
+    g0, g1 = find_generic(base), find_generic(mod)
+    expanded = not any(o.name.startswith("kernel.") for o in g1.body.block.ops)
+    r.obs = (kern, wiring, lead, trail, expanded)
+    r.nontrivial = expanded
+    r.states = 1
+    r.validated = 1
+    r.count("kmix_expanded", int(expanded))
+    r.sample = dict(body=text, expanded=expanded)
+    doms = [[-128, -1, 2, 127] if t == "i8" else [-(1 << 31), -3, 0, 5, (1 << 31) - 1] for t in atys]
+    if len(atys) > 3:
+        doms = [d[:4] if len(d) > 4 else d for d in doms]
+        doms = [d if t == "i8" else [-(1 << 31), -3, 5, (1 << 31) - 1] for d, t in zip(doms, atys)]
+    for args in itertools.product(*doms):
+        want = run_mixed(g0.body.block, args)
+        got = run_mixed(g1.body.block, args)
+        r.transitions += 1
+        if want != got:
+            r.violate(key + "|expansion", case, f"convert-kernel-to-linalg changes the function of a body with kernel.{kern}: inputs {args}: before {want}, after {got}; body:\n{text}")
+            return
+
+
 def evaluate(case) -> CaseResult:
     kind, p = case
     r = CaseResult()
     if kind == "body":
         eval_body_case(r, *p)
+    elif kind == "kmix":
+        eval_kmix(r, *p)
     elif kind == "dispatch":
         eval_dispatch(r, *p)
     else:
@@ -455,6 +563,8 @@ def replay(case):
         eval_body_case(r, case["idx"], case["tier"])
     elif case["kind"] == "dispatch":
         eval_dispatch(r, case["idx"])
+    elif case["kind"] == "kmix":
+        eval_kmix(r, case["idx"])
     else:
         eval_rescale(r, case["idx"], case["tier"])
     return r.violations
